@@ -95,23 +95,33 @@ theorem provide_never_blocks (handler : Bool) (s : SyncState) (hr : Reachable ha
    Arca.Proofs.PluginSync.provideEnabling_not_blocked handler s (Arca.Proofs.PluginSync.reachable_inv handler s hr),
    Arca.Proofs.PluginSync.provideStarting_not_blocked handler s⟩
 
-/-- A stop request (`cancelled` input) does not block as long as fewer cancel signals than the capacity of
-    `signalToStep` (read from the source) have been sent. -/
-theorem provide_cancelled_never_blocks_partial (handler : Bool) (s : SyncState) (hr : Reachable handler s)
-    (truthy : Bool) (hb : s.cancelSends < pluginChan_signalToStep) :
+/-- A stop request (`cancelled` input) never blocks: the stop condition is accepted once (`stopInputAvailable`), so at
+    most one cancel signal is sent through it and one by `run()` itself, and `signalToStep` (capacity read from the
+    source) has room for both. -/
+theorem provide_cancelled_never_blocks (handler : Bool) (s : SyncState) (hr : Reachable handler s) (truthy : Bool) :
     syncStep handler s (.provideCancelled truthy) ≠ .wouldBlock :=
   Arca.Proofs.PluginSync.provideCancelled_not_blocked handler s truthy
-    (Arca.Proofs.PluginSync.reachable_inv handler s hr) hb
+    (Arca.Proofs.PluginSync.reachable_inv handler s hr)
 
-/-- the execution that fills `signalToStep`: deploy, enable, start, then eleven stop requests nobody drains -/
+/-- the invariant behind it: never more than two cancel signals, never more waiting in the channel than were sent -/
+theorem cancel_signals_bounded (handler : Bool) (s : SyncState) (hr : Reachable handler s) :
+    s.cancelSends ≤ 2 ∧ s.sigOcc ≤ s.cancelSends ∧ s.sigOcc < pluginChan_signalToStep := by
+  have hi := Arca.Proofs.PluginSync.reachable_inv handler s hr
+  refine ⟨?_, hi.sig, Arca.Proofs.PluginSync.sig_room s hi⟩
+  refine Nat.le_trans hi.stopBound ?_
+  split <;> split <;> omega
+
+/-- the execution that fills `signalToStep`: deploy, enable, start, then ten stop requests nobody drains -/
 def cancelFlood : List Act :=
   [.runBegin, .provideDeploy, .recvDeploy, .deployOk, .provideEnabling, .recvEnabled true, .provideStarting true, .startOk] ++
   List.replicate pluginChan_signalToStep (.provideCancelled true)
 
-/-- Without that bound the clause is FALSE: stop requests are not once-only, each one sends on `signalToStep` with a
-    plain blocking send while `r.lock` is held; when the ATP client does not drain the channel the eleventh blocks. -/
+/-- WITHOUT the once-only flag (the provider before the stop-once repair, modelled by forgetting `stopAvail` before
+    every action) the clause is FALSE: each stop request sends on `signalToStep` with a plain blocking send while
+    `r.lock` is held; when the ATP client does not drain the channel the eleventh blocks. -/
 theorem provide_cancelled_may_block_counterexample :
-    ∃ s, execute true syncInit cancelFlood = some s ∧ syncStep true s (.provideCancelled true) = .wouldBlock := by
+    ∃ s, executeForgetting true syncInit cancelFlood = some s ∧
+      syncStep true (forgetStop s) (.provideCancelled true) = .wouldBlock := by
   refine ⟨_, rfl, ?_⟩
   decide
 
@@ -137,8 +147,10 @@ theorem second_input_refused (handler : Bool) (s s1 s2 : SyncState) (_hr : Reach
     (syncStep handler s .provideEnabling = .next s1 → ReachableFrom handler s1 s2 →
       syncStep handler s2 .provideEnabling = .refused s2) ∧
     (∀ v v', syncStep handler s (.provideStarting v) = .next s1 → ReachableFrom handler s1 s2 →
-      syncStep handler s2 (.provideStarting v') = .refused s2) := by
-  refine ⟨?_, ?_, ?_⟩
+      syncStep handler s2 (.provideStarting v') = .refused s2) ∧
+    (∀ v v', syncStep handler s (.provideCancelled v) = .next s1 → ReachableFrom handler s1 s2 →
+      syncStep handler s2 (.provideCancelled v') = .refused s2) := by
+  refine ⟨?_, ?_, ?_, ?_⟩
   · intro h1 h2
     exact Arca.Proofs.PluginSync.provideDeploy_refused handler s2
       ((Arca.Proofs.PluginSync.flags_mono_star handler s1 s2 h2).1
@@ -151,6 +163,10 @@ theorem second_input_refused (handler : Bool) (s s1 s2 : SyncState) (_hr : Reach
     exact Arca.Proofs.PluginSync.provideStarting_refused handler s2 v'
       ((Arca.Proofs.PluginSync.flags_mono_star handler s1 s2 h2).2.2.1
         (Arca.Proofs.PluginSync.provideStarting_sets handler s s1 v h1))
+  · intro v v' h1 h2
+    exact Arca.Proofs.PluginSync.provideCancelled_refused handler s2 v'
+      ((Arca.Proofs.PluginSync.flags_mono_star handler s1 s2 h2).2.2.2.2
+        (Arca.Proofs.PluginSync.provideCancelled_sets handler s s1 v h1))
 
 /-- Closing is idempotent: a Close or ForceClose that finds the step closed changes nothing and only waits. -/
 theorem close_idempotent (handler : Bool) (s : SyncState) (hr : Reachable handler s) (hc : s.closed = true) :
@@ -177,16 +193,15 @@ theorem wait_group_counts_goroutines (handler : Bool) (s : SyncState) (hr : Reac
 
 /-- Closing always returns (E1: the deployer returns, E2: `Execute` returns once the container was closed, E3: the
     closure timer fires — these are the moves `deployOk`, `atpReturn`, `timer`): from every reachable state in which
-    the context is cancelled and there is room for `run()`'s own cancel signal, the internal moves alone — no further
+    the context is cancelled, the internal moves alone — no further
     call from outside — reach a state where no caller waits and the wait group is zero; and EVERY internal move lowers
     a natural-number measure, so every schedule of them is finite. -/
-theorem close_returns (handler : Bool) (s : SyncState) (hr : Reachable handler s) (hctx : s.ctxDone = true)
-    (hroom : s.sigOcc < pluginChan_signalToStep) :
+theorem close_returns (handler : Bool) (s : SyncState) (hr : Reachable handler s) (hctx : s.ctxDone = true) :
     (∃ acts s', (∀ a ∈ acts, a ∈ internalActs) ∧ execute handler s acts = some s' ∧ s'.closeWaiting = 0 ∧ s'.wg = 0) ∧
     (∀ a ∈ internalActs, ∀ s', syncStep handler s a = .next s' → closeRank s' < closeRank s) := by
   have hi := Arca.Proofs.PluginSync.reachable_inv handler s hr
   refine ⟨?_, ?_⟩
-  · exact Arca.Proofs.PluginSync.closing_terminates handler (closeRank s) s (Nat.le_refl _) ⟨hi, hctx, fun _ => hroom⟩
+  · exact Arca.Proofs.PluginSync.closing_terminates handler (closeRank s) s (Nat.le_refl _) ⟨hi, hctx, fun _ => Arca.Proofs.PluginSync.sig_room s hi⟩
   · intro a ha s' hs
     exact Arca.Proofs.PluginSync.internal_decreases handler s s' a ha hs hi
 
